@@ -257,6 +257,11 @@ let run_trace_block () =
             p_pack_one w (z_of_int (int_of_string id)) (List.map po (split_on ';' objs)) (fs = "1") (clean = "1")
         | ["clean"; v; order] -> p_clean w (v = "1") (List.map (fun k -> n_of_int (int_of_string k)) (split_on ',' order))
         | ["clean"; v] -> p_clean w (v = "1") []
+        | ["addpack"; id; nh; twice; fs; objs] ->
+            let po s = (match String.split_on_char ',' s with
+              | [k; blob; c; sz] -> { okey = n_of_int (int_of_string k); oblob = hex_to_bytes blob; ocomp = (c = "1"); osize = nat_of_int (int_of_string sz) }
+              | _ -> failwith "bad pobj") in
+            p_add_to_pack w (z_of_int (int_of_string id)) (List.map po (split_on ';' objs)) (nh = "1") (twice = "1") (fs = "1")
         | ["repack"; id; objs] ->
             let po s = (match String.split_on_char ',' s with
               | [k; blob; c; sz] -> { okey = n_of_int (int_of_string k); oblob = hex_to_bytes blob; ocomp = (c = "1"); osize = nat_of_int (int_of_string sz) }
